@@ -27,7 +27,7 @@ profile('core-stall', P.gen_core, cancels=0.0, stall_bias=0.9, stall_faults=0.8,
         kinds=[(2, 'rr'), (4, 'stream'), (5, 'channel'), (1, 'fnf')], framing=[(4, 'tcp'), (1, 'ws')])
 profile('core-await', P.gen_core, cancels=0.0, awaitable=0.7, kinds=[(4, 'stream'), (4, 'channel'), (1, 'rr')])
 profile('core-credit', P.gen_core, cancels=0.0, kinds=[(4, 'stream'), (5, 'channel'), (1, 'rr')],
-        sources=[(4, 'gen'), (4, 'agen'), (1, 'manual')], max_count=50, errors=False)
+        sources=[(4, 'gen'), (4, 'agen'), (1, 'manual')], max_count=50, errors=False, long_streams=0.04)
 profile('core-cancel', P.gen_core, cancels=0.5, cancel_sent=1.0, on_cancel_raises=0.15, kinds=[(6, 'rr'), (6, 'stream'), (6, 'channel'), (2, 'fnf'), (1, 'push')])
 profile('core-ends', P.gen_core, cancels=0.25, p_resp_pub=0.7, p_req_pub=0.6, p_resp_sub=0.8, lib_streams=0.15,
         kinds=[(2, 'rr'), (3, 'stream'), (5, 'channel'), (1, 'fnf')])
@@ -63,6 +63,7 @@ profile('hostile', PH.gen_hostile)
 profile('buggify', PH.gen_buggify)
 
 profile('routing', XRT.gen_routing)
+profile('routing-close', XRT.gen_routing, close=True)
 
 profile('rx', XRX.gen_rx)
 
@@ -76,6 +77,7 @@ profile('peer-script', PP.gen_peer_script)
 profile('peer-script-grid', PP.gen_peer_script_grid, grid=True, grid_size=PP.peer_grid_size)
 
 profile('frag-grid', P.gen_frag_grid, grid=True)
+profile('frag-huge', P.gen_frag_huge)
 
 profile('core-close', P.gen_core_close, cancels=0.0)
 
@@ -88,8 +90,8 @@ CHECKS = {
                         'core-await': [O.oracle_c01], 'core-close': [O.oracle_c01_close], 'reconnect': [XR.oracle_c01_reconnect]},
             'level': 'exploration'},
     'C03': {'profiles': [('core-frag', 2500, 100000), ('core-stall', 1000, 40000), ('core-msg', 500, 20000),
-                         ('frag-grid', 4000, 'grid'), ('reconnect', 2000, 60000)],
-            'oracles': {'core-frag': [O.oracle_c03], 'core-stall': [O.oracle_c03], 'core-msg': [O.oracle_c03], 'frag-grid': [O.oracle_c03],
+                         ('frag-grid', 4000, 'grid'), ('reconnect', 2000, 60000), ('frag-huge', 8, 200)],
+            'oracles': {'frag-huge': [O.oracle_c03_huge], 'core-frag': [O.oracle_c03], 'core-stall': [O.oracle_c03], 'core-msg': [O.oracle_c03], 'frag-grid': [O.oracle_c03],
                         'reconnect': [XR.oracle_c03_reconnect]}, 'level': 'exploration'},
     'C04': {'profiles': [('parser', 20000, 600000)], 'oracles': [XP.oracle_c04], 'level': 'exploration'},
     'C05': {'profiles': [('core-stall', 3500, 140000), ('core-frag', 1500, 60000), ('core', 1000, 40000),
@@ -116,8 +118,10 @@ CHECKS = {
                          ('rx', 3000, 100000)],
             'oracles': {'core-cancel': [O.oracle_c09], 'cancel-sweep': [O.oracle_c09], 'core-lease': [O.oracle_c09],
                         'rx': [XRX.oracle_c09_rx]}, 'level': 'exploration'},
-    'C11': {'profiles': [('cut', 4000, 150000), ('cut-msg', 2000, 60000), ('cut-sweep', 32, 1000), ('cut-sweep-full', 12, 400)],
-            'oracles': [O.oracle_c11], 'level': 'fault_enumeration'},
+    'C11': {'profiles': [('cut', 4000, 150000), ('cut-msg', 2000, 60000), ('cut-sweep', 32, 1000), ('cut-sweep-full', 12, 400),
+                         ('routing-close', 1500, 40000)],
+            'oracles': {'cut': [O.oracle_c11], 'cut-msg': [O.oracle_c11], 'cut-sweep': [O.oracle_c11], 'cut-sweep-full': [O.oracle_c11],
+                        'routing-close': [XRT.oracle_c11_routing]}, 'level': 'fault_enumeration'},
     'C14': {'profiles': [('lease-req', 12000, 400000), ('lease-resp', 3000, 100000), ('reconnect-lease', 3000, 100000)],
             'oracles': {'lease-req': [PP.oracle_c14], 'lease-resp': [PP.oracle_c14], 'reconnect-lease': [XR.oracle_c14_reconnect]},
             'level': 'exploration'},
